@@ -553,6 +553,26 @@ def direct_oracle(pid, case, impl_out):
             for body, p, b in _defrag_items(impl_out):
                 if body.startswith("(ok") and p != "0":
                     return "a call that returns Ok ends defragmentation (defrag_in_progress() must be false after it)"
+        if impl_out.startswith("(defrag"):
+            # refusals while defragmenting (state reconstructed from the implementation's own answers):
+            # a record of another content type -> Error(Tag); parse_record_nocopy -> Failure(NonEmpty);
+            # both leave defrag_in_progress() and the buffer unchanged
+            ops = case.line.split(" ")[1:]
+            items = _defrag_items(impl_out)
+            busy, cur, blen = False, None, 0
+            for op, (body, pflag, bl) in zip(ops, items):
+                f = op.split(",")
+                if f[0] == "R": busy, cur, blen = False, None, 0; continue
+                if busy and f[0] == "N":
+                    if not body.startswith("(fail NonEmpty") or pflag != "1" or bl != blen:
+                        return "parse_record_nocopy while defragmenting must refuse with Failure(NonEmpty) and leave the state unchanged (got %s %s %d)" % (body[:60], pflag, bl)
+                elif busy and f[0] == "P" and f[1] != cur:
+                    if not body.startswith("(err Tag") or pflag != "1" or bl != blen:
+                        return "a record of another content type while defragmenting must be refused with Error(Tag), state unchanged (got %s %s %d)" % (body[:60], pflag, bl)
+                else:
+                    if f[0] == "P" and not busy and pflag == "1": cur = f[1]
+                    busy, blen = (pflag == "1"), bl
+                    if not busy: cur = None
         if case.expect.startswith("defrag-split:") and impl_out.startswith("(defrag"):
             want = case.expect[len("defrag-split:"):]
             items = _defrag_items(impl_out)
